@@ -607,3 +607,140 @@ pub fn closed(env: &SEnv, t: &SType) -> bool {
 pub fn env_closed(env: &SEnv) -> bool {
     env.0.values().all(|t| closed(env, t))
 }
+
+// ---------------------------------------------------------------- upgrade steps (DESIGN.md A.4)
+
+/// Rewrite `t` at a random position into something *meant* to be a subtype
+/// (`down = true`) or a supertype (`down = false`) of it. Whether it really is one
+/// is decided by the real checker, which gates every deployment.
+pub fn upgrade_step(rng: &mut Rng, env: &SEnv, t: &SType, down: bool, prims: &[Prim]) -> (SType, &'static str) {
+    let n = t.nodes();
+    let mut k = rng.usize(n);
+    let choice = rng.below(10);
+    let lab = gen_label(rng);
+    let p = *rng.pick(prims);
+    let r2 = rng.next_u64();
+    let mut kind: &'static str = "none";
+    let _ = env;
+    let mut f = |x: &SType| -> SType {
+        match (down, choice, x) {
+            // --- specialise (new <: old)
+            (true, 0 | 1, SType::Prim(Prim::Int)) => {
+                kind = "int->nat";
+                SType::Prim(Prim::Nat)
+            }
+            (true, 2 | 3, SType::Record(fs)) => {
+                kind = "add-field";
+                let mut fs = fs.clone();
+                fs.push((lab.clone(), if r2 % 2 == 0 { SType::Prim(p) } else { SType::opt(SType::Prim(p)) }));
+                SType::record(fs)
+            }
+            (true, 4, SType::Variant(fs)) if fs.len() > 1 => {
+                kind = "drop-case";
+                let mut fs = fs.clone();
+                fs.remove((r2 % fs.len() as u64) as usize);
+                SType::variant(fs)
+            }
+            (true, 5, SType::Opt(inner)) => {
+                kind = "opt->inner";
+                (**inner).clone()
+            }
+            (true, 6, SType::Prim(Prim::Reserved)) => {
+                kind = "reserved->t";
+                SType::Prim(p)
+            }
+            (true, 7, SType::Record(fs)) if fs.iter().any(|(_, t)| matches!(t, SType::Opt(_))) => {
+                kind = "drop-optional-field";
+                let mut fs = fs.clone();
+                if let Some(i) = fs.iter().position(|(_, t)| matches!(t, SType::Opt(_))) {
+                    fs.remove(i);
+                }
+                SType::record(fs)
+            }
+            (true, 8, SType::Opt(inner)) if matches!(**inner, SType::Variant(_)) => {
+                // the unusual rule: a case may be ADDED under opt
+                kind = "add-case-under-opt";
+                if let SType::Variant(fs) = &**inner {
+                    let mut fs = fs.clone();
+                    fs.push((lab.clone(), SType::Prim(p)));
+                    SType::opt(SType::variant(fs))
+                } else {
+                    x.clone()
+                }
+            }
+            // --- generalise (old <: new)
+            (false, 0 | 1, SType::Prim(Prim::Nat)) => {
+                kind = "nat->int";
+                SType::Prim(Prim::Int)
+            }
+            (false, 2, SType::Record(fs)) => {
+                kind = "add-optional-field";
+                let mut fs = fs.clone();
+                fs.push((lab.clone(), SType::opt(SType::Prim(p))));
+                SType::record(fs)
+            }
+            (false, 3, SType::Record(fs)) if !fs.is_empty() => {
+                kind = "drop-field";
+                let mut fs = fs.clone();
+                fs.remove((r2 % fs.len() as u64) as usize);
+                SType::record(fs)
+            }
+            (false, 4, SType::Variant(fs)) => {
+                kind = "add-case";
+                let mut fs = fs.clone();
+                fs.push((lab.clone(), SType::Prim(p)));
+                SType::variant(fs)
+            }
+            (false, 5 | 6, x) if !matches!(x, SType::Opt(_) | SType::Prim(Prim::Null) | SType::Prim(Prim::Reserved) | SType::Func { .. }) => {
+                kind = "wrap-in-opt";
+                SType::opt(x.clone())
+            }
+            (false, 7, x) if !matches!(x, SType::Func { .. }) => {
+                kind = "to-reserved";
+                SType::Prim(Prim::Reserved)
+            }
+            (false, 8, SType::Opt(inner)) if matches!(**inner, SType::Variant(_)) => {
+                kind = "drop-case-under-opt";
+                if let SType::Variant(fs) = &**inner {
+                    let mut fs = fs.clone();
+                    if fs.len() > 1 {
+                        fs.remove((r2 % fs.len() as u64) as usize);
+                    }
+                    SType::opt(SType::variant(fs))
+                } else {
+                    x.clone()
+                }
+            }
+            // --- reference types, either direction
+            (_, 9, SType::Func { args, rets, mode }) => {
+                kind = "func-ref-signature";
+                let mut args = args.clone();
+                let mut rets = rets.clone();
+                match r2 % 4 {
+                    0 => args.push(SType::opt(SType::Prim(p))),
+                    1 if *mode != Mode::Oneway => rets.push(SType::Prim(p)),
+                    2 => {
+                        args.pop();
+                    }
+                    _ => {
+                        rets.pop();
+                    }
+                }
+                SType::Func { args, rets, mode: *mode }
+            }
+            (_, 9, SType::Service(ms)) => {
+                kind = "service-ref-methods";
+                let mut ms = ms.clone();
+                if r2 % 2 == 0 || ms.is_empty() {
+                    ms.push((format!("m{}", r2 % 5), SType::Func { args: vec![], rets: vec![SType::Prim(p)], mode: Mode::Query }));
+                } else {
+                    ms.remove((r2 % ms.len() as u64) as usize);
+                }
+                SType::service(ms)
+            }
+            (_, _, x) => x.clone(),
+        }
+    };
+    let out = rewrite_at(t, &mut k, &mut f);
+    (out, kind)
+}
